@@ -5,31 +5,40 @@ added to the aggregators, however the batch ended (all iterations done, cancelle
 interim report never summarises a result that was not added.
 -/
 namespace Pool
+variable {ρ : Type}
 
 /-- invariant of the loop -/
-structure Inv (c : Cfg) (s : St) : Prop where
+structure Inv (c : Cfg) (s : St ρ) : Prop where
   flushLe : s.lastFlush ≤ s.count
-  running : s.done = false → s.published = some s.lastFlush ∧ s.count < c.iterations ∧ s.failed = false
-  finished : s.done = true → s.failed = false → s.published = some s.count
+  running : s.done = false → s.published = some (s.added.take s.lastFlush) ∧ s.count < c.iterations ∧ s.failed = false
+  finished : s.done = true → s.failed = false → s.published = some s.added
   failed : s.failed = true → s.published = none ∧ s.done = true
 
-theorem inv_start (c : Cfg) : Inv c (start c) := by
+theorem inv_start (c : Cfg) : Inv c (start c : St ρ) := by
   unfold start finish
-  split <;> constructor <;> simp_all
+  split <;> constructor <;> simp_all [St.count]
 
-theorem bump_count (c : Cfg) (s : St) : (bump c s).count = s.count + 1 := by
+theorem bump_added (c : Cfg) (s : St ρ) (r : ρ) : (bump c s r).added = s.added ++ [r] := by
   unfold bump; split <;> rfl
-theorem bump_done (c : Cfg) (s : St) : (bump c s).done = s.done := by
+theorem bump_count (c : Cfg) (s : St ρ) (r : ρ) : (bump c s r).count = s.count + 1 := by
+  simp [St.count, bump_added]
+theorem bump_done (c : Cfg) (s : St ρ) (r : ρ) : (bump c s r).done = s.done := by
   unfold bump; split <;> rfl
-theorem bump_failed (c : Cfg) (s : St) : (bump c s).failed = s.failed := by
+theorem bump_failed (c : Cfg) (s : St ρ) (r : ρ) : (bump c s r).failed = s.failed := by
   unfold bump; split <;> rfl
-theorem bump_flush (c : Cfg) (s : St) (h : s.published = some s.lastFlush) (hl : s.lastFlush ≤ s.count) :
-    (bump c s).published = some (bump c s).lastFlush ∧ (bump c s).lastFlush ≤ (bump c s).count := by
+theorem bump_flush (c : Cfg) (s : St ρ) (r : ρ) (h : s.published = some (s.added.take s.lastFlush)) (hl : s.lastFlush ≤ s.count) :
+    (bump c s r).published = some ((bump c s r).added.take (bump c s r).lastFlush) ∧ (bump c s r).lastFlush ≤ (bump c s r).count := by
   unfold bump; split
-  · simp
-  · simp [h]; omega
+  · simp only [St.count] at hl ⊢
+    refine ⟨?_, by simp⟩
+    simp only [Option.some.injEq]
+    exact (List.take_of_length_le (by simp)).symm
+  · simp only [St.count] at hl ⊢
+    refine ⟨?_, by simp; omega⟩
+    simp only [h]
+    rw [List.take_append_of_le_length hl]
 
-theorem inv_step (c : Cfg) (s : St) (e : Ev) (h : Inv c s) : Inv c (step c s e) := by
+theorem inv_step (c : Cfg) (s : St ρ) (e : Ev ρ) (h : Inv c s) : Inv c (step c s e) := by
   unfold step
   split
   · exact h
@@ -38,10 +47,10 @@ theorem inv_step (c : Cfg) (s : St) (e : Ev) (h : Inv c s) : Inv c (step c s e) 
     obtain ⟨hp, hc, hf⟩ := h.running hd'
     have hle := h.flushLe
     cases e with
-    | error => constructor <;> simp_all
-    | cancel => unfold finish; constructor <;> simp_all
-    | result =>
-      obtain ⟨b1, b2⟩ := bump_flush c s hp hle
+    | error => constructor <;> simp_all [St.count]
+    | cancel => unfold finish; constructor <;> simp_all [St.count]
+    | result r =>
+      obtain ⟨b1, b2⟩ := bump_flush c s r hp hle
       simp only
       split
       · rename_i hlt
@@ -57,123 +66,132 @@ theorem inv_step (c : Cfg) (s : St) (e : Ev) (h : Inv c s) : Inv c (step c s e) 
         · intro _ _; rfl
         · intro hfl; simp only [bump_failed] at hfl; simp [hf] at hfl
 
-theorem inv_foldl (c : Cfg) (evs : List Ev) (s : St) (h : Inv c s) : Inv c (evs.foldl (step c) s) := by
+theorem inv_foldl (c : Cfg) (evs : List (Ev ρ)) (s : St ρ) (h : Inv c s) : Inv c (evs.foldl (step c) s) := by
   induction evs generalizing s with
   | nil => exact h
   | cons e es ih => exact ih _ (inv_step c s e h)
 
-theorem inv_run (c : Cfg) (evs : List Ev) : Inv c (run c evs) := inv_foldl c evs _ (inv_start c)
+theorem inv_run (c : Cfg) (evs : List (Ev ρ)) : Inv c (run c evs) := inv_foldl c evs _ (inv_start c)
 
 /-- **C19 (pool)**: when the batch is done and did not fail, the published statistics summarise exactly the
 results that were added — whether it ran to the end or was cancelled at any point. -/
-theorem C19_pool_done_reports_every_added_result (c : Cfg) (evs : List Ev)
+theorem C19_pool_done_reports_every_added_result (c : Cfg) (evs : List (Ev ρ))
     (hd : (run c evs).done = true) (hf : (run c evs).failed = false) :
-    (run c evs).published = some (run c evs).count :=
+    (run c evs).published = some (run c evs).added :=
   (inv_run c evs).finished hd hf
 
-/-- an interim report (the batch still running) summarises a prefix of what was added, never more -/
-theorem C19_pool_interim_report_is_a_prefix (c : Cfg) (evs : List Ev) (hd : (run c evs).done = false) :
-    ∃ k, (run c evs).published = some k ∧ k ≤ (run c evs).count :=
-  ⟨_, ((inv_run c evs).running hd).1, (inv_run c evs).flushLe⟩
+/-- an interim report (the batch still running) summarises a prefix of what was added, never anything else -/
+theorem C19_pool_interim_report_is_a_prefix (c : Cfg) (evs : List (Ev ρ)) (hd : (run c evs).done = false) :
+    ∃ k, k ≤ (run c evs).count ∧ (run c evs).published = some ((run c evs).added.take k) :=
+  ⟨_, (inv_run c evs).flushLe, ((inv_run c evs).running hd).1⟩
 
 /-- a failed batch publishes no result at all -/
-theorem C19_pool_failure_publishes_nothing (c : Cfg) (evs : List Ev) (hf : (run c evs).failed = true) :
+theorem C19_pool_failure_publishes_nothing (c : Cfg) (evs : List (Ev ρ)) (hf : (run c evs).failed = true) :
     (run c evs).published = none :=
   ((inv_run c evs).failed hf).1
 
-theorem step_done (c : Cfg) (s : St) (e : Ev) (h : s.done = true) : step c s e = s := by
+theorem step_done (c : Cfg) (s : St ρ) (e : Ev ρ) (h : s.done = true) : step c s e = s := by
   unfold step; simp [h]
 
-theorem foldl_done (c : Cfg) (evs : List Ev) (s : St) (h : s.done = true) : evs.foldl (step c) s = s := by
+theorem foldl_done (c : Cfg) (evs : List (Ev ρ)) (s : St ρ) (h : s.done = true) : evs.foldl (step c) s = s := by
   induction evs with
   | nil => rfl
   | cons e es ih => simp [List.foldl, step_done c s e h, ih]
 
-/-- the counter is the number of results received before the loop stopped: every such result is counted
-once, and nothing received after the stop is -/
-theorem count_eq_added (c : Cfg) (evs : List Ev) (s : St) (hi : Inv c s) (hd : s.done = false) :
-    (evs.foldl (step c) s).count = added c s.count evs := by
+/-- what was added is what was received before the loop stopped, in arrival order: every such result
+once, and nothing received after the stop -/
+theorem added_eq_received (c : Cfg) (evs : List (Ev ρ)) (s : St ρ) (hi : Inv c s) (hd : s.done = false) :
+    (evs.foldl (step c) s).added = received c s.added evs := by
   induction evs generalizing s with
-  | nil => simp [added]
+  | nil => simp [received]
   | cons e es ih =>
     obtain ⟨_, hc, _⟩ := hi.running hd
-    have hnot : ¬ c.iterations ≤ s.count := by omega
-    simp only [List.foldl, added, if_neg hnot]
+    have hnot : ¬ c.iterations ≤ s.added.length := by simp only [St.count] at hc; omega
+    simp only [List.foldl, received, if_neg hnot]
     cases e with
     | error =>
-      have : (step c s .error).done = true := by unfold step; simp [hd]
+      have : (step c s (.error : Ev ρ)).done = true := by unfold step; simp [hd]
       rw [foldl_done c es _ this]; unfold step; simp [hd]
     | cancel =>
-      have : (step c s .cancel).done = true := by unfold step finish; simp [hd]
+      have : (step c s (.cancel : Ev ρ)).done = true := by unfold step finish; simp [hd]
       rw [foldl_done c es _ this]; unfold step finish; simp [hd]
-    | result =>
-      have hcnt : (step c s .result).count = s.count + 1 := by
-        unfold step finish; simp only [hd]; simp only [Bool.false_eq_true, if_false]
-        split <;> simp [bump_count]
-      cases hdn : (step c s .result).done with
+    | result r =>
+      have hadd : (step c s (.result r)).added = s.added ++ [r] := by
+        unfold step finish; simp only [hd, Bool.false_eq_true, if_false]
+        split <;> simp [bump_added]
+      cases hdn : (step c s (.result r)).done with
       | true =>
-        rw [foldl_done c es _ hdn, hcnt]
+        rw [foldl_done c es _ hdn, hadd]
         have hge : c.iterations ≤ s.count + 1 := by
           unfold step finish at hdn
           simp only [hd, Bool.false_eq_true, if_false] at hdn
           split at hdn
           · rw [bump_done] at hdn; simp [hd] at hdn
           · omega
+        have hge' : c.iterations ≤ (s.added ++ [r]).length := by simpa [St.count] using hge
         cases es with
-        | nil => simp [added]
-        | cons e' es' => simp [added, hge]
+        | nil => simp [received]
+        | cons e' es' => simp only [received, if_pos hge']
       | false =>
-        rw [ih _ (inv_step c s .result hi) hdn, hcnt]
+        rw [ih _ (inv_step c s (.result r) hi) hdn, hadd]
 
-theorem C19_pool_count_is_results_before_stop (c : Cfg) (evs : List Ev) (h : 0 < c.iterations) :
-    (run c evs).count = added c 0 evs := by
+theorem C19_pool_added_is_received_before_stop (c : Cfg) (evs : List (Ev ρ)) (h : 0 < c.iterations) :
+    (run c evs).added = received c [] evs := by
   unfold run
-  have hs : start c = {} := by unfold start; simp [h]
+  have hs : (start c : St ρ) = {} := by unfold start; simp [h]
   rw [hs]
-  exact count_eq_added c evs {} (hs ▸ inv_start c) rfl
+  exact added_eq_received c evs {} (hs ▸ inv_start c) rfl
 
-theorem added_replicate (c : Cfg) (k m : Nat) (h1 : k ≤ c.iterations) (h2 : c.iterations ≤ k + m) :
-    added c k (List.replicate m .result) = c.iterations := by
-  induction m generalizing k with
-  | zero => simp [added]; omega
-  | succ m ih =>
-    simp only [List.replicate, added]
+theorem received_results (c : Cfg) (acc rs : List ρ) (h1 : acc.length ≤ c.iterations) :
+    received c acc (rs.map .result) = acc ++ rs.take (c.iterations - acc.length) := by
+  induction rs generalizing acc with
+  | nil => simp [received]
+  | cons r rs ih =>
+    simp only [List.map, received]
     split
-    · omega
-    · exact ih (k + 1) (by omega) (by omega)
+    · have : c.iterations - acc.length = 0 := by omega
+      simp [this]
+    · rename_i hlt
+      rw [ih (acc ++ [r]) (by simp; omega)]
+      have : c.iterations - acc.length = (c.iterations - (acc ++ [r]).length) + 1 := by simp; omega
+      rw [this, List.take_succ_cons]; simp
 
-theorem failed_of_results (c : Cfg) (es : List Ev) (s : St) (he : ∀ e ∈ es, e = .result) (hs : s.failed = false) :
+theorem failed_of_results (c : Cfg) (es : List (Ev ρ)) (s : St ρ) (he : ∀ e ∈ es, ∃ r, e = .result r) (hs : s.failed = false) :
     (es.foldl (step c) s).failed = false := by
   induction es generalizing s with
   | nil => exact hs
   | cons e es ih =>
-    have : e = .result := he e (by simp)
-    subst this
+    obtain ⟨r, hr⟩ := he e (by simp)
+    subst hr
     apply ih _ (fun e' h' => he e' (by simp [h']))
     unfold step finish; split
     · exact hs
     · simp only; split <;> simp [bump_failed, hs]
 
-/-- a batch whose workers deliver all results runs to the end and reports all of them -/
-theorem C19_pool_completes (c : Cfg) (n : Nat) (h : c.iterations ≤ n) (hp : 0 < c.iterations) :
-    (run c (List.replicate n .result)).done = true ∧ (run c (List.replicate n .result)).published = some c.iterations := by
-  have hcount := C19_pool_count_is_results_before_stop c (List.replicate n .result) hp
-  rw [added_replicate c 0 n (by omega) (by omega)] at hcount
-  have hinv := inv_run c (List.replicate n .result)
-  have hnf : (run c (List.replicate n .result)).failed = false := by
+/-- a batch whose workers deliver all results runs to the end and reports exactly the first `iterations` of them -/
+theorem C19_pool_completes (c : Cfg) (rs : List ρ) (h : c.iterations ≤ rs.length) (hp : 0 < c.iterations) :
+    (run c (rs.map .result)).done = true ∧ (run c (rs.map .result)).published = some (rs.take c.iterations) := by
+  have hadded := C19_pool_added_is_received_before_stop c (rs.map .result) hp
+  rw [received_results c [] rs (by simp)] at hadded
+  simp only [List.nil_append, List.length_nil, Nat.sub_zero] at hadded
+  have hinv := inv_run c (rs.map (.result : ρ → Ev ρ))
+  have hnf : (run c (rs.map (.result : ρ → Ev ρ))).failed = false := by
     unfold run
-    exact failed_of_results c _ _ (fun e he => (List.mem_replicate.mp he).2) (by unfold start finish; split <;> rfl)
-  cases hdone : (run c (List.replicate n .result)).done with
+    exact failed_of_results c _ _ (fun e he => by
+      obtain ⟨r, _, hr⟩ := List.mem_map.mp he
+      exact ⟨r, hr.symm⟩) (by unfold start finish; split <;> rfl)
+  cases hdone : (run c (rs.map (.result : ρ → Ev ρ))).done with
   | false =>
     have := (hinv.running hdone).2.1
+    simp only [St.count, hadded, List.length_take] at this
     omega
-  | true => exact ⟨rfl, by rw [hinv.finished hdone hnf, hcount]⟩
+  | true => exact ⟨rfl, by rw [hinv.finished hdone hnf, hadded]⟩
 
 -- the hypotheses are satisfiable and the statements say something: a batch of 5, flushed when more than 1 result is
 -- unreported, cancelled after 4 (the result that arrives after the cancel is not counted)
-example : (run ⟨5, 1⟩ [.result, .result, .result, .result, .cancel, .result]).published = some 4 := by decide
-example : (run ⟨5, 1⟩ [.result, .result, .result]).published = some 2 ∧ (run ⟨5, 1⟩ [.result, .result, .result]).done = false := by decide
-example : (run ⟨3, 100⟩ [.result, .result, .result]).published = some 3 ∧ (run ⟨3, 100⟩ [.result, .result, .result]).done = true := by decide
-example : (run ⟨3, 100⟩ [.result, .error, .result]).published = none := by decide
+example : (run ⟨5, 1⟩ [.result 10, .result 11, .result 12, .result 13, .cancel, .result 14]).published = some [10, 11, 12, 13] := by decide
+example : (run ⟨5, 1⟩ [.result 10, .result 11, .result 12]).published = some [10, 11] ∧ (run ⟨5, 1⟩ [.result 10, .result 11, .result 12]).done = false := by decide
+example : (run ⟨3, 100⟩ [.result 1, .result 2, .result 3]).published = some [1, 2, 3] ∧ (run ⟨3, 100⟩ [.result 1, .result 2, .result 3]).done = true := by decide
+example : (run ⟨3, 100⟩ [.result 1, .error, .result 2]).published = none := by decide
 
 end Pool
